@@ -67,7 +67,7 @@ TableOf(v, ds) ==
     [W |-> SW, H |-> SH, n |-> Len(ds), d100 |-> ds, lx100 |-> LX100, ly100 |-> LY100, xexact |-> TRUE, yexact |-> TRUE,
      complete |-> FALSE, ent |-> Ent, A |-> Filter(v, ds), real |-> TRUE, spread |-> 0, pw |-> 0, leak |-> 0, lin |-> 0,
      mean |-> 0, degen |-> 0, rep |-> 0, keep |-> 0, argmut |-> FALSE, form |-> "xyz_c", pxas |-> "float",
-     dosesas |-> "array", xres |-> <<>>, hascomp |-> FALSE]
+     dosesas |-> "array", xres |-> <<>>, near |-> <<>>, hascomp |-> FALSE]
 
 Init == /\ stack \in DoseVectors
         /\ variant \in Variants
